@@ -281,6 +281,8 @@ end""", ['s', 'a']),
 ("elif_assigns_earlier_cond_var", "x = 0\ny = 0\nz = 0\nc = 0\nwhile true:\n    c = 1 {1/2} 0\n    if x == 1:\n        y = y + 1\n    elif c == 1:\n        x = 1\n        z = z + 2\n    else:\n        z = z + 1\n    end\nend", ["z", "y", "x"]),      # a later branch assigns a variable of an EARLIER condition, then assigns again
 ("categorical_zero_prob", "x = 0\ny = 0\nwhile true:\n    x = Categorical(1/2, 0, 1/2)\n    y = x*x\nend", ["y", "x"]),      # a zero probability in a non-last position: the support must keep the index 2
 ("simult_const_first", "x = 0\ny = 0\ns = 0\nwhile true:\n    b = Bernoulli(1/2)\n    if b == 1:\n        x, y = 0, x\n    else:\n        x = x + 1\n    end\n    s = s + y\nend", ["y", "x", "s"]),      # simultaneous assignment: constant first, then a read of the overwritten variable
+("func_prev_value", "z = 0\ns = 1\nwhile true:\n    a = Uniform(0, 1)\n    z = s*a\n    s = Exp(a)\nend", ["s", "z"]),      # z reads the PREVIOUS value of the functional variable s: registrations of the goal s must not leak into the goal z
+("real_roots_rational_largest", "x = 0\ny = 1\nz = 0\nwhile true:\n    z = x\n    x = y\n    y = z/4 + y/4 + 2 {1/2} z/4 + y/4\nend", ["x", "y"]),      # characteristic roots 1 and (1 +- sqrt(17))/8: numeric isolation must not be flagged exact
 ("d18_uninit_under_guard", """x = 3
 c = 0
 while c == 1:
